@@ -120,13 +120,13 @@ class OpAdd(Op):
         if parent is None:
             # Replace the root object.
             # The following op, if any, will raise a JSONPatchError if needed.
-            return self.value  # type: ignore
+            return copy.deepcopy(self.value)  # type: ignore
 
         target = self.path.parts[-1]
         if isinstance(parent, MutableSequence):
-            _insert(parent, target, self.value)
+            _insert(parent, target, copy.deepcopy(self.value))
         elif isinstance(parent, MutableMapping):
-            parent[str(target)] = self.value
+            parent[str(target)] = copy.deepcopy(self.value)
         else:
             raise JSONPatchError(
                 f"unexpected operation on {parent.__class__.__name__!r}"
@@ -159,16 +159,16 @@ class OpAddNe(OpAdd):
         if parent is None:
             # Replace the root object.
             # The following op, if any, will raise a JSONPatchError if needed.
-            return self.value  # type: ignore
+            return copy.deepcopy(self.value)  # type: ignore
 
         target = self.path.parts[-1]
         if isinstance(parent, MutableSequence):
             if obj is UNDEFINED:
-                parent.append(self.value)
+                parent.append(copy.deepcopy(self.value))
             else:
-                parent.insert(int(target), self.value)
+                parent.insert(int(target), copy.deepcopy(self.value))
         elif isinstance(parent, MutableMapping) and str(target) not in parent:
-            parent[str(target)] = self.value
+            parent[str(target)] = copy.deepcopy(self.value)
         return data
 
 
@@ -193,16 +193,16 @@ class OpAddAp(OpAdd):
         if parent is None:
             # Replace the root object.
             # The following op, if any, will raise a JSONPatchError if needed.
-            return self.value  # type: ignore
+            return copy.deepcopy(self.value)  # type: ignore
 
         target = self.path.parts[-1]
         if isinstance(parent, MutableSequence):
             if obj is UNDEFINED:
-                parent.append(self.value)
+                parent.append(copy.deepcopy(self.value))
             else:
-                parent.insert(int(target), self.value)
+                parent.insert(int(target), copy.deepcopy(self.value))
         elif isinstance(parent, MutableMapping):
-            parent[str(target)] = self.value
+            parent[str(target)] = copy.deepcopy(self.value)
         else:
             raise JSONPatchError(
                 f"unexpected operation on {parent.__class__.__name__!r}"
@@ -264,16 +264,16 @@ class OpReplace(Op):
         """Apply this patch operation to _data_."""
         parent, obj = _resolve_parent(self.path, data)
         if parent is None:
-            return self.value  # type: ignore
+            return copy.deepcopy(self.value)  # type: ignore
 
         if isinstance(parent, MutableSequence):
             if obj is UNDEFINED:
                 raise JSONPatchError("can't replace nonexistent item")
-            parent[int(self.path.parts[-1])] = self.value
+            parent[int(self.path.parts[-1])] = copy.deepcopy(self.value)
         elif isinstance(parent, MutableMapping):
             if obj is UNDEFINED:
                 raise JSONPatchError("can't replace nonexistent property")
-            parent[str(self.path.parts[-1])] = self.value
+            parent[str(self.path.parts[-1])] = copy.deepcopy(self.value)
         else:
             raise JSONPatchError(
                 f"unexpected operation on {parent.__class__.__name__!r}"
